@@ -75,8 +75,35 @@ def load_known():
 
 
 def run_rules(F, rule_fns):
+    """Every rule is run on the functions as written.  When that view does not let it decide, or shows a violation that is not a
+    listed finding, it is run once more on the view in which private helpers are spliced into the functions the rule is anchored
+    in (flatten.flat; Facts.fn hands that view out while VERIF_FLAT=1).  Both views describe the same program, so a clean verdict
+    on either stands; anything else keeps the first result.  This is what makes `extract a helper` / `inline a helper` harmless."""
     results = []
+    known_keys = {k for (_, k) in load_known()[0]}
     for fn in rule_fns:
+        rs = _run_rule(F, fn)
+        bad = any(x.errors or [i for i in x.violations if i["key"] not in known_keys] for x in rs)
+        if bad and os.environ.get("VERIF_FLAT") != "1" and os.environ.get("VERIF_NO_SECOND_VIEW") != "1":
+            os.environ["VERIF_FLAT"] = "1"
+            try:
+                rs2 = _run_rule(F, fn)
+            finally:
+                os.environ["VERIF_FLAT"] = "0"
+            clean2 = not any(x.errors or [i for i in x.violations if i["key"] not in known_keys] for x in rs2)
+            if clean2:
+                for x in rs2:
+                    x.note("decided on the view with private helpers spliced in (the view as written: %s)" % (
+                        "; ".join(str(e)[:160] for y in rs for e in y.errors) or
+                        "; ".join(i["key"] for y in rs for i in y.violations if i["key"] not in known_keys)[:300]))
+                rs = rs2
+        results.extend(rs)
+    return results
+
+
+def _run_rule(F, fn):
+    results = []
+    for fn in [fn]:
         t0 = time.time()
         try:
             r = fn(F)
